@@ -17,22 +17,27 @@ def dropout_events():
     return ["T", "E", "Fb"] + [f"F{m}" for m in range(8)]
 
 def run_dropout(p, hist):
+    """The statement fixes the distribution (each element dropped independently with probability p, survivors scaled by exactly
+    1/(1-p), same mask in backward), not how a uniform draw u is turned into the decision: `u > p` keeps (convention A) and
+    `u < 1-p` keeps (convention B) are both right.  The scripted answers are a = min(p,1-p)/2 and c = (max(p,1-p)+1)/2: A keeps
+    exactly the c-elements, B exactly the a-elements, so all 8 keep/drop vectors occur under either; the layer may follow either
+    convention but the same one in every call of a history."""
     sg = harness.load()
     L = sg.nn.Dropout(p)
     training = True
     viols = []
+    conv = None
     for i, e in enumerate(hist):
         prefix = hist[: i + 1]
         def v(kind, detail): viols.append((kind, detail, prefix))
         if e == "T": L.train(); training = True
         elif e == "E": L.eval(); training = False
         else:
-            if e == "Fb": keep, u = None, [p, p, p]
+            if e == "Fb": bits, u = None, [p, p, p]
             else:
-                m = int(e[1:]); keep = [(m >> j) & 1 for j in range(3)]
-                u = [(p + (1 - p) / 2 if k else p / 2) if 0 < p < 1 else (0.25 + 0.5 * k) for k in keep]
-                if p == 0: keep = [1, 1, 1]
-                if p == 1: keep = [0, 0, 0]
+                m = int(e[1:]); bits = [(m >> j) & 1 for j in range(3)]
+                a, c = min(p, 1 - p) / 2, (max(p, 1 - p) + 1) / 2
+                u = [(c if k else a) if 0 < p < 1 else (0.25 + 0.5 * k) for k in bits]
             x = sg.Tensor(X3.copy(), requires_grad=True)
             with randsrc.controlled(u=u) as src:
                 try:
@@ -46,18 +51,28 @@ def run_dropout(p, hist):
                 if draws: v("dropout:eval-consumes-randomness", f"{draws} random draws in eval mode")
             else:
                 if draws != X3.size: v("dropout:draws", f"{draws} draws for {X3.size} elements")
-                if keep is not None:
-                    exp = X3 * np.array(keep) / (1 - p) if p < 1 else np.zeros(3)
-                    if not np.allclose(yd, exp, rtol=1e-14, atol=0) or not np.all(np.isfinite(yd)):
-                        v("dropout:training-output", f"p={p} answers u={u}: output {yd}, expected x*[u>p]/(1-p) = {exp}")
-                    try:
-                        y.backward(sg.Tensor(G3.copy()))
-                        gexp = G3 * np.array(keep) / (1 - p) if p < 1 else np.zeros(3)
-                        gd = np.asarray(x.grad.data, dtype=np.float64)
-                        if not np.allclose(gd, gexp, rtol=1e-14, atol=0):
-                            v("dropout:backward-mask", f"p={p} answers u={u}: gradient {gd}, expected g*mask/(1-p) = {gexp}")
-                    except Exception as ex:
-                        v("dropout:backward-raised", f"{type(ex).__name__}: {ex}")
+                if bits is not None:
+                    if p == 0: cands = {"A": [1, 1, 1], "B": [1, 1, 1]}
+                    elif p == 1: cands = {"A": [0, 0, 0], "B": [0, 0, 0]}
+                    else: cands = {"A": bits, "B": [1 - b for b in bits]}
+                    exps = {k: (X3 * np.array(kp) / (1 - p) if p < 1 else np.zeros(3)) for k, kp in cands.items()}
+                    ok = {k for k, ex_ in exps.items() if np.all(np.isfinite(yd)) and np.allclose(yd, ex_, rtol=1e-14, atol=0)}
+                    if conv is not None and conv in ok: ok = {conv}
+                    elif conv is not None: ok = set()
+                    if not ok:
+                        v("dropout:training-output", f"p={p} answers u={u}: output {yd}; expected x*keep/(1-p) with keep = [u>p] {exps['A']} or keep = [u<1-p] {exps['B']}"
+                          + (f" (earlier calls of this history followed convention {conv})" if conv else ""))
+                    else:
+                        if len(ok) == 1 and 0 < p < 1: conv = next(iter(ok))
+                        keep = cands[sorted(ok)[0]]
+                        try:
+                            y.backward(sg.Tensor(G3.copy()))
+                            gexp = G3 * np.array(keep) / (1 - p) if p < 1 else np.zeros(3)
+                            gd = np.asarray(x.grad.data, dtype=np.float64)
+                            if not np.allclose(gd, gexp, rtol=1e-14, atol=0):
+                                v("dropout:backward-mask", f"p={p} answers u={u}: gradient {gd}, expected g*mask/(1-p) = {gexp}")
+                        except Exception as ex:
+                            v("dropout:backward-raised", f"{type(ex).__name__}: {ex}")
                 else:
                     # boundary u == p: each element independently either dropped or kept-and-scaled
                     for j in range(3):
@@ -233,5 +248,5 @@ def run(tier, seed):
                    "running_var, num_batches_tracked after every event; after the history every forward is back-propagated (delayed backward) "
                    "and its input gradient compared with the closed form / torch autograd; states = (configuration, history prefix) pairs"}
     return {"level": "model_checking", "violations": [b[1] for b in best.values()], "coverage": cov,
-            "assumptions": ["NumPy's generator distribution is trusted; each element must be a function of its own draw",
+            "assumptions": ["NumPy's generator distribution is trusted; each element must be a function of its own draw; the draw-to-decision rule may be u > p or u < 1-p (same rule throughout a history)",
                             "torch.nn.BatchNorm (float64) is the documented exponential / cumulative moving-average rule"]}
